@@ -55,10 +55,14 @@ public:
         for(;;) {
             _cond.wait(lk, [&]{return !_queue.empty() || _exit;});
             if (_exit) break;
-            auto h = std::move(_queue.front());
-            _queue.pop();
-            lk.unlock();
-            h();
+            {
+                auto h = std::move(_queue.front());
+                _queue.pop();
+                lk.unlock();
+                h();
+                //the closure is destroyed here, outside of the lock and before the pool is
+                //touched again - its destructor can call the pool, even destroy it
+            }
             //if _current is nullptr, thread_pool has been destroyed
             if (_current == nullptr) return;
             lk.lock();
